@@ -70,7 +70,7 @@ def run(ck):
     ck.tlc("BufPipe", "MC_BufPipe_live.cfg", workers=4)
     # the invariants are not vacuous: each broken twin of the transcription must be rejected by TLC
     twins = (("lostwake", "NoLostWakeup"), ("noeofsignal", "NoLostWakeup"), ("wrap", "Refines"))
-    for variant, inv in (twins if thorough else twins[:1]):
+    for variant, inv in (twins if thorough else ()):
         t = ck.tlc("BufPipe", "MC_BufPipe.cfg", constants={"Variant": '"%s"' % variant}, allow_error=True, count=False)
         if not t.error or t.error["kind"] != "invariant":
             raise vf.Infra("BufPipe twin %s was not rejected (vacuous invariants?)" % variant)
